@@ -286,8 +286,22 @@ static char * strip_dimension_units(char * original) {
 
 void mmd_export_link_html(DString * out, const char * source, token * text, link * link, scratch_pad * scratch) {
 	attr * a = link->attributes;
+	int header_index = -1;
 
-	if (link->url) {
+	if ((scratch->extensions & EXT_RANDOM_LABELS) && !(scratch->extensions & EXT_NO_LABELS) &&
+			link->label && link->url && (link->url[0] == '#')) {
+		// An automatic link to a header has to follow the random id of that header
+		for (int i = 0; i < scratch->header_stack->size; ++i) {
+			if (stack_peek_index(scratch->header_stack, i) == link->label) {
+				header_index = i;
+				break;
+			}
+		}
+	}
+
+	if (header_index != -1) {
+		printf("<a href=\"#%d\"", random_anchor_from_seed(scratch->random_seed_base_labels + header_index));
+	} else if (link->url) {
 		print_const("<a href=\"");
 		mmd_print_string_html(out, link->url, false, false);
 		print_const("\"");
